@@ -42,11 +42,13 @@ SolveOk(e) ==
          /\ Len(e.x) = e.n
          /\ ExactSolution(e.a, e.x, e.b, e.n)
          /\ (Has(e, "want") => SameSeqs(e.x, e.want))
-    ELSE e.len = e.n /\ UnitsOk(e.units, Guard(e))
+    ELSE /\ e.len = e.n /\ UnitsOk(e.units, Guard(e))
+         /\ (Has(e, "sunits") => UnitsOk(e.sunits, SharpGuard(e.n, IsCx(e))))
 AgreeOk(e) ==
   IF e.panic THEN FALSE
   ELSE IF e.ty = "rat" THEN e.len1 = e.n /\ e.len2 = e.n /\ Len(e.x1) = e.n /\ SameSeqs(e.x1, e.x2)
-  ELSE UnitsOk(e.units, 2 * Guard(e))
+  ELSE /\ UnitsOk(e.units, IF e.n > 8 THEN Guard(e) ELSE 2 * Guard(e))
+       /\ (Has(e, "sunits") => UnitsOk(e.sunits, 2 * SharpGuard(e.n, IsCx(e))))
 DetOkEv(e) ==
   IF e.panic THEN FALSE
   ELSE IF e.ty = "rat"
@@ -63,6 +65,7 @@ InverseOkEv(e) ==
     THEN ExactInverse(e.a, e.inv, e.n) /\ SameIntMat(e.post, e.a)
     ELSE /\ e.rows = e.n /\ e.cols = e.n
          /\ UnitsOk(e.runits, Guard(e))
+         /\ (Has(e, "srunits") => UnitsOk(e.srunits, SharpGuard(e.n, IsCx(e))))
          \* the left residual is only logged when kappa_inf(A) <= 1e8 (it carries a condition number)
          /\ (Has(e, "lunits") => UnitsOk(e.lunits, Guard(e)))
          /\ SameSeqs(e.pre, e.post) /\ Len(e.pre) = e.n * e.n
